@@ -96,7 +96,9 @@ pub fn encode_mtrl(m: &MtrlSpec) -> Vec<u8> {
             strings.push(0);
         }
     }
-    while strings.len() % 4 != 0 {
+    // retail files pad the string table to four bytes; its size field can say anything, and a quarter of the generated tables
+    // end with their last terminator
+    while strings.len() % 4 != 0 && (m.flag_noise >> 24) % 4 != 3 {
         strings.push(0);
     }
     let dims: u32 = match m.table {
